@@ -53,8 +53,8 @@ TRIM_PAIRED = ("u", "U", "nextseq", "q", "Q", "a", "A", "polya", "l", "L")
 TAIL = ("trimn", "lengthtag", "stripsuffix", "xy", "rename", "zerocap")
 TAILS = [t for t in itertools.product((0, 1), repeat=len(TAIL)) if not (t[3] and t[4])]      # 48 combinations
 
-CUT1 = {1: (5,), 2: (5, -3)}        # -u values, in the order given
-CUT2 = {1: (7,), 2: (-2, 7)}        # -U values, in the order given
+CUT1 = {1: (5,), 2: (5, -3), 3: (0, 5)}        # -u values, in the order given (a length of 0 removes nothing: no step)
+CUT2 = {1: (7,), 2: (-2, 7), 3: (7, 0)}        # -U values, in the order given
 
 
 def _fragments(opts, variant):
@@ -319,10 +319,12 @@ def _expected(opts, variant, mate, paired):
     e = []
     if mate == 1 and opts.get("u"):
         for v in CUT1[ucount]:
-            e.append((0, ("UnconditionalCutter",), ("length", v)))
+            if v != 0:
+                e.append((0, ("UnconditionalCutter",), ("length", v)))
     if mate == 2 and opts.get("U"):
         for v in CUT2[ucount]:
-            e.append((0, ("UnconditionalCutter",), ("length", v)))
+            if v != 0:
+                e.append((0, ("UnconditionalCutter",), ("length", v)))
     if opts.get("nextseq"):
         e.append((1, ("NextseqQualityTrimmer",), ("cutoff", int(variant.get("nextseq", "20")))))     # a cut-off of 0 is a setting, not "absent"
     q = None
@@ -567,14 +569,14 @@ def _add(paired, variant, nbits, pieces, live="three", tails="all", timeout=600,
 _add(False, {}, 6, 2, live="all", tag="-u x1")
 _add(False, {"cuts": 2, "q": "5,10", "xy": "x", "times": "2", "action": "mask"}, 6, 1, tag="-u x2, -q 5,10, -x only, --times 2 --action mask")
 _add(False, {"adapter": "revcomp", "xy": "y"}, 6, 1, tag="--revcomp, -y only")
-_add(False, {"adapter": "front", "nextseq": "0", "l": "0"}, 6, 1, live="none", tag="-g, --nextseq-trim 0, -l 0")
+_add(False, {"adapter": "front", "nextseq": "0", "l": "0", "cuts": 3}, 6, 1, live="none", tag="-g, --nextseq-trim 0, -l 0, -u 0 -u 5")
 # paired-end: all 49152 subsets in the base variant; the variants concern trimming options only and are combined with
 # three name-option combinations (none / all with -x -y / all with --rename)
 _add(True, {}, 10, 8, tag="-u/-U x1")
 _add(True, {"cuts": 2, "q": "5,10", "Q": "3,15", "times": "2", "action": "mask"}, 10, 2, tails="three", live="none", tag="-u/-U x2, -q 5,10 -Q 3,15, --times 2 --action mask")
 _add(True, {"adapter": "revcomp"}, 10, 2, tails="three", live="none", tag="--revcomp")
 _add(True, {"adapter": "pair", "xy": "x"}, 10, 2, tails="three", live="none", tag="--pair-adapters, -x only")
-_add(True, {"Q": "0", "xy": "y", "nextseq": "0", "l": "0"}, 10, 2, tails="three", live="none", tag="-Q 0, -y only, --nextseq-trim 0, -l 0")
+_add(True, {"Q": "0", "xy": "y", "nextseq": "0", "l": "0", "cuts": 3}, 10, 2, tails="three", live="none", tag="-Q 0, -y only, --nextseq-trim 0, -l 0, -u 0 -u 5 -U 7 -U 0")
 _add(True, {}, 10, 16, live="all", timeout=3000, thorough_only=True, tag="-u/-U x1, every pipeline re-run")
 _add(True, {"cuts": 2, "q": "5,10", "Q": "3,15", "adapter": "revcomp"}, 10, 16, live="none", timeout=3000, thorough_only=True, tag="-u/-U x2, -q 5,10 -Q 3,15, --revcomp, all name options")
 
@@ -588,7 +590,7 @@ def describe():
         "bounds": {"options": "single-end: all subsets of {-u, --nextseq-trim, -q, -a, --poly-a, -l} x {--trim-n, --length-tag, --strip-suffix, -x/-y, --rename, -z} (3072 admissible subsets: --rename excludes -x/-y), "
                               "every one of their pipelines re-run under CrossHair; paired-end: all subsets of {-u, -U, --nextseq-trim, -q, -Q, -a, -A, --poly-a, -l, -L} x the same name options (49152 subsets) natively, "
                               "of which per trimming-option subset three pipelines (no name option / all with -x -y / all with --rename) are re-run under CrossHair (quick; thorough re-runs all 49152)",
-                   "variants": "each with all trimming-option subsets: -u/-U given twice (order given) with -q 5,10 -Q 3,15; -g instead of -a; --revcomp; --pair-adapters; -Q 0; --nextseq-trim 0 and -l 0 (boundary values that are settings, not absence); --times 2 --action mask (must reach the adapter cutter of either mate); -x alone; -y alone "
+                   "variants": "each with all trimming-option subsets: -u/-U given twice (order given) with -q 5,10 -Q 3,15; -g instead of -a; --revcomp; --pair-adapters; -Q 0; --nextseq-trim 0 and -l 0 (boundary values that are settings, not absence); -u 0 / -U 0 (removes nothing: no step); --times 2 --action mask (must reach the adapter cutter of either mate); -x alone; -y alone "
                                "(single-end variants x all 48 name-option combinations, paired variants x three of them)",
                    "argv": "three permutations per subset (as listed, reversed with the file names first, interleaved with the file names in the middle); a repeated -u keeps its relative order",
                    "reads": "one abstract read (pair) per run; payload symbolic"},
